@@ -666,6 +666,21 @@ def contracts(reg):
         note="amplification obligations at the repeated-cell / repeated-row expansion sites",
     ))
     EXECUTOR_KW[f"{ODS}::_extract_sheet"] = {"abstract": True, "inline_calls": False, "merge": True, "inline_local": True}
+
+    # ---- 7z decoders: every library decompressor call carries the folder's declared size (contracts/c12_sevenzip.py)
+    try:
+        from contracts import c12_sevenzip
+        for q, params, mk in c12_sevenzip.contracts(reg, loader.module(c12_sevenzip.SZ)):
+            out.append(FnContract(
+                target=f"{c12_sevenzip.SZ}::{q}",
+                params=[(n, mk.get(n, p_unk())) for n in params],
+                ensures=[("decoder-stops-at-the-declared-size", (lambda sp: lambda c: c12_sevenzip.bounded_by_declared(c, sp))(mk.get("__sizes__")))],
+                raises=[Raises("Exception", sub=True)], modifies=((mk["__sizes__"],) if mk.get("__sizes__") else ()),
+                note="every call of a library decompressor is given the folder's declared output size (LZMA-alone size field or max_length)",
+            ))
+            EXECUTOR_KW[f"{c12_sevenzip.SZ}::{q}"] = {"abstract": False, "inline_calls": False, "inline_local": True}
+    except Exception:  # noqa  (a pack's contracts() must not raise: the native scope decides then)
+        pass
     return out
 
 
@@ -859,7 +874,7 @@ def _native_scope(which):
 
 def _extra():
     from contracts import c12_cost
-    return [_native_scope("explicit-limits"), _native_scope("repeat-attribute-classes"), _native_scope("zip-bomb-classes"), _cost("guard_exemptions"), _cost("rescan_obligations"), policy, _cost("self_suffix_obligations"), _cost("xml_policy"), _cost("nested_scan_obligations")] + [_carve_task(k) for k in c12_cost.carve_tasks()]
+    return [_native_scope("explicit-limits"), _native_scope("repeat-attribute-classes"), _native_scope("zip-bomb-classes"), _native_scope("7z-declared-sizes"), _cost("guard_exemptions"), _cost("sevenzip_collisions"), _cost("rescan_obligations"), policy, _cost("self_suffix_obligations"), _cost("xml_policy"), _cost("nested_scan_obligations")] + [_carve_task(k) for k in c12_cost.carve_tasks()]
 
 
 EXTRA = _extra()
@@ -898,7 +913,7 @@ def known_findings(kf, violations, repo, tier):
 
 TRUSTED = ["defusedxml forbids entity expansion", "stat().st_size is the size read_file would read"]
 ASSUMED_MODELS = ["pathlib.Path.stat/st_size", "open()", "io.BytesIO.seek/tell (position, SEEK_END = size)", "router contracts (C07)"]
-BOUNDED = ["native-scope#explicit-limits, native-scope#zip-bomb-classes and native-scope#repeat-attribute-classes: directed native runs of the replayer on every check (never counted as proved)"]
+BOUNDED = ["native-scope#explicit-limits, native-scope#zip-bomb-classes, native-scope#7z-declared-sizes and native-scope#repeat-attribute-classes: directed native runs of the replayer on every check (never counted as proved)"]
 ASSUMPTIONS = ["peak memory and run time as quantities are not decided (not expressible as contracts); what is decided are the structural causes of super-linear cost: "
                "unbounded repeat expansion (amp-bounded#repeat-site), overlapping carving of a scanned buffer (amp-bounded#carve-while-k: copies of different iterations "
                "are disjoint, so total copy size <= len(buffer)), per-iteration re-slicing (no-self-suffix-rebinding), nested re-scans (nested-scans-skip-the-part-handed-out); "
